@@ -459,7 +459,10 @@ pub fn run_order(scn: &BScenario, order: &[usize]) -> BRun {
     let stop_issued = ops.iter().any(|o| matches!(o.op, BOp::Stop | BOp::Kill));
     let join = rt.block_on(async {
         if !stop_issued {
-            let _ = aref.stop().await;
+            // (bounded: a mailbox that never frees a slot must not hang the harness; the actor is then killed)
+            if tokio::time::timeout(Duration::from_secs(3), aref.stop()).await.is_err() {
+                let _ = aref.kill();
+            }
         }
         match tokio::time::timeout(Duration::from_secs(5), jh).await {
             Ok(Ok(r)) => format!("{}", if r.is_completed() { if r.was_killed() { "Completed(killed)" } else { "Completed" } } else { "Failed" }),
@@ -470,8 +473,16 @@ pub fn run_order(scn: &BScenario, order: &[usize]) -> BRun {
     // helper threads of timed-out blocking calls may still be running: give them a moment, then count
     std::thread::sleep(Duration::from_millis(80));
     drop(cmd_txs);
+    // a caller thread that is still inside a blocking call now will never come back: its operation stays without a
+    // result ("never returned") and the thread is left behind rather than joined
+    let give_up = Instant::now() + Duration::from_millis(3000);
     for t in threads {
-        let _ = t.join();
+        while !t.is_finished() && Instant::now() < give_up {
+            std::thread::sleep(Duration::from_millis(10));
+        }
+        if t.is_finished() {
+            let _ = t.join();
+        }
     }
     #[cfg(feature = "f_testutils")]
     let dl_count = Some(rsactor::dead_letter_count());
